@@ -62,6 +62,16 @@ func (sc *SpecCtx) eval(e *SExpr) (*Val, error) {
 	case SStr:
 		return &Val{T: g.strConst(e.Name), Ty: types.Typ[types.String]}, nil
 	case SIdent:
+		if strings.HasSuffix(e.Name, "$1") && !sc.callee {
+			// name$1 also denotes the only variable of that name
+			if base := strings.TrimSuffix(e.Name, "$1"); !g.localAmbig[base] {
+				if _, ok := g.localTypes["$local:"+base]; ok {
+					cp := *e
+					cp.Name = base
+					return sc.eval(&cp)
+				}
+			}
+		}
 		if sc.qvars[e.Name] {
 			return &Val{T: e.Name, Ty: intType}, nil
 		}
@@ -484,6 +494,11 @@ func (sc *SpecCtx) call(e *SExpr) (*Val, error) {
 			return nil, err
 		}
 		return &Val{T: ite(c.T, a.T, b.T), Ty: a.Ty}, nil
+	case "allok":
+		if sc.callee || len(e.Args) != 1 {
+			return nil, fmt.Errorf("allok(selector)")
+		}
+		return &Val{T: g.ghostTerm(sc.cur, "$allok:"+selName(e.Args[0])), Ty: boolType}, nil
 	case "called", "succeeded", "count":
 		if sc.callee {
 			return nil, fmt.Errorf("call history of the callee is not visible at a call site")
@@ -689,6 +704,20 @@ func (sc *SpecCtx) call(e *SExpr) (*Val, error) {
 // lvalTargets resolves a modifies expression to heap locations.
 func (sc *SpecCtx) lvalTargets(e *SExpr) ([]frameTarget, error) {
 	g := sc.g
+	if e.Kind == SIdent && !sc.callee {
+		name := e.Name
+		if strings.HasSuffix(name, "$1") && !g.localAmbig[strings.TrimSuffix(name, "$1")] {
+			name = strings.TrimSuffix(name, "$1")
+		}
+		if p, ok := g.localAddr[name]; ok {
+			elem := p.Ty.Underlying().(*types.Pointer).Elem()
+			if !isStruct(elem) {
+				loc := g.locOfPtr(p, elem)
+				g.scalarComp(loc.Comp, loc.Ty)
+				return []frameTarget{{Comp: loc.Comp, Ref: loc.Ref, Idx: loc.Idx}}, nil
+			}
+		}
+	}
 	switch e.Kind {
 	case SField:
 		x, err := sc.eval(e.X)
